@@ -28,10 +28,18 @@ const (
 	opCopySwitch
 	opProtoRoundTrip
 	opChangeMapping
+	// operations on companions: copies of the sketch that stay alive next to it (only through skState.apply)
+	opFork          // a copy that stays alive as companion j
+	opCompAdd       // companion j absorbs (v, w)
+	opCompReweight  // companion j is reweighted
+	opCompClear     // companion j is cleared
+	opMergeFromComp // sketch.MergeWith(companion j); the companion stays in use
+	opMergeIntoComp // companion j.MergeWith(sketch)
 	opNumKinds
 )
 
-var opNames = []string{"Add", "AddWithCount", "MergeWith", "DecodeAndMergeWith", "Clear", "Reweight", "Encode->Decode", "Copy->continue", "ToProto->FromProto", "ChangeMapping"}
+var opNames = []string{"Add", "AddWithCount", "MergeWith", "DecodeAndMergeWith", "Clear", "Reweight", "Encode->Decode", "Copy->continue", "ToProto->FromProto", "ChangeMapping",
+	"Copy(kept alive)", "companion.AddWithCount", "companion.Reweight", "companion.Clear", "MergeWith(live companion)", "companion.MergeWith(sketch)"}
 
 type argRecipe struct {
 	Spec         gen.StoreSpec
@@ -46,6 +54,7 @@ type skOp struct {
 	omit   bool
 	target gen.StoreSpec
 	newMap *gen.Map // opChangeMapping
+	j      int      // companion index
 }
 
 func (o skOp) String() string {
@@ -62,6 +71,12 @@ func (o skOp) String() string {
 		return fmt.Sprintf("ChangeMapping(%s, into %s, scale %v)", o.newMap.Desc, o.target, o.w)
 	case opRoundTrip, opProtoRoundTrip:
 		return fmt.Sprintf("%s(into %s, omitMapping=%v)", opNames[o.kind], o.target, o.omit)
+	case opFork, opCompClear, opMergeFromComp, opMergeIntoComp:
+		return fmt.Sprintf("%s [companion %d]", opNames[o.kind], o.j)
+	case opCompAdd:
+		return fmt.Sprintf("companion %d.AddWithCount(%v, %v)", o.j, o.v, o.w)
+	case opCompReweight:
+		return fmt.Sprintf("companion %d.Reweight(%v)", o.j, o.w)
 	}
 	return opNames[o.kind]
 }
@@ -79,13 +94,25 @@ type histGen struct {
 	anySpec    bool    // round-trip / argument store kinds drawn from all 5 kinds (else non-collapsing only)
 	sameTarget bool    // round trips always go back into the sketch's own store spec
 	running    float64 // upper bound of the weight the main sketch holds
+	comp       []float64 // upper bound of the weight each live companion holds
+}
+
+// withCompanions makes the generator keep copies alive next to the sketch: they keep being used, are merged
+// into the sketch and receive it as merge argument (nothing may be shared between any two of them).
+func (h *histGen) withCompanions() {
+	h.weights[opFork] = 4
+	h.weights[opCompAdd] = 10
+	h.weights[opCompReweight] = 1
+	h.weights[opCompClear] = 1
+	h.weights[opMergeFromComp] = 4
+	h.weights[opMergeIntoComp] = 3
 }
 
 func newHistGen(c *core.Ctx, r *rng.Rng, m *gen.Map, spec gen.StoreSpec, pattern string, sigmaIdx float64) *histGen {
 	h := &histGen{c: c, r: r, m: m, spec: spec, budget: &gen.Budget{}}
 	vs := genValues(c, r, m, gen.StoreSpec{Kind: gen.SDense}, r.Range(4, 60), pattern, sigmaIdx)
 	h.pool = vs.vals
-	h.weights = [opNumKinds]int{30, 20, 8, 5, 3, 5, 4, 3, 2, 0}
+	h.weights = [opNumKinds]int{30, 20, 8, 5, 3, 5, 4, 3, 2, 0, 0, 0, 0, 0, 0, 0}
 	return h
 }
 
@@ -225,7 +252,72 @@ func (h *histGen) gen(n int) []skOp {
 			for i := range h.pool {
 				h.pool[i] *= scale
 			}
+			if !(scale == 1 && gen.SameParams(nm, h.m)) {
+				h.comp = nil // companions of another mapping cannot meet the sketch any more: skState retires them
+			}
 			h.m = nm
+		case opFork:
+			if len(h.comp) >= 3 || !h.budget.Charge(h.running) {
+				continue
+			}
+			op.j = len(h.comp)
+			h.comp = append(h.comp, h.running)
+		case opCompAdd:
+			if len(h.comp) == 0 {
+				continue
+			}
+			op.j = h.r.Intn(len(h.comp))
+			op.v, op.w = h.value(), 1
+			if h.r.P(0.4) {
+				op.w = h.budget.Weight(h.r, 10, 1)
+			} else {
+				h.budget.Charge(1)
+			}
+			h.comp[op.j] += op.w
+		case opCompReweight:
+			if len(h.comp) == 0 {
+				continue
+			}
+			f := h.budget.Factor(h.r)
+			if f == 0 {
+				continue
+			}
+			op.j = h.r.Intn(len(h.comp))
+			op.w = f
+			h.comp[op.j] *= f
+		case opCompClear:
+			if len(h.comp) == 0 {
+				continue
+			}
+			op.j = h.r.Intn(len(h.comp))
+			h.comp[op.j] = 0
+		case opMergeFromComp:
+			if len(h.comp) == 0 {
+				continue
+			}
+			op.j = h.r.Intn(len(h.comp))
+			if !h.budget.Charge(h.comp[op.j]) {
+				continue
+			}
+			if h.r.P(0.25) {
+				// into an empty receiver
+				ops = append(ops, skOp{kind: opClear})
+				h.running = 0
+			}
+			h.running += h.comp[op.j]
+		case opMergeIntoComp:
+			if len(h.comp) == 0 {
+				continue
+			}
+			op.j = h.r.Intn(len(h.comp))
+			if !h.budget.Charge(h.running) {
+				continue
+			}
+			if h.r.P(0.25) {
+				ops = append(ops, skOp{kind: opCompClear, j: op.j})
+				h.comp[op.j] = 0
+			}
+			h.comp[op.j] += h.running
 		}
 		ops = append(ops, op)
 	}
@@ -356,12 +448,18 @@ func applyModel(mdl **mon.SketchModel, m *gen.Map, op skOp) {
 
 // skState is a sketch under model monitoring.
 type skState struct {
-	c    *core.Ctx
-	name string
-	s    mon.Sketch
-	spec gen.StoreSpec
-	m    *gen.Map
-	mdl  *mon.SketchModel
+	c     *core.Ctx
+	name  string
+	s     mon.Sketch
+	spec  gen.StoreSpec
+	m     *gen.Map
+	mdl   *mon.SketchModel
+	comps []*skState // live companions (copies that stay in use)
+}
+
+// live returns the sketch and its live companions: every check that holds for the sketch holds for each of them.
+func (st *skState) live() []*skState {
+	return append([]*skState{st}, st.comps...)
 }
 
 func newSkState(c *core.Ctx, name string, exact bool, m *gen.Map, spec gen.StoreSpec) *skState {
@@ -370,6 +468,12 @@ func newSkState(c *core.Ctx, name string, exact bool, m *gen.Map, spec gen.Store
 
 // apply executes a valid op on the real sketch and on the model; false if the library refused or panicked.
 func (st *skState) apply(op skOp) bool {
+	if op.kind >= opFork {
+		return st.applyCompanionOp(op)
+	}
+	if op.kind == opChangeMapping && !(op.w == 1 && gen.SameParams(op.newMap, st.m)) {
+		st.comps = nil
+	}
 	mBefore := st.m
 	err := applyOp(st.c, st.name, &st.s, &st.spec, &st.m, op)
 	if st.c.Failed() {
@@ -380,6 +484,64 @@ func (st *skState) apply(op skOp) bool {
 		return false
 	}
 	applyModel(&st.mdl, mBefore, op)
+	return true
+}
+
+func (st *skState) applyCompanionOp(op skOp) bool {
+	c := st.c
+	c.Logf("%s.%s", st.name, op)
+	c.Count("event."+opNames[op.kind], 1)
+	if op.kind != opFork && op.j >= len(st.comps) {
+		c.Failf("harness.companion", "internal: companion %d does not exist", op.j)
+		return false
+	}
+	var err error
+	switch op.kind {
+	case opFork:
+		var cp mon.Sketch
+		if c.Guard("Copy", func() { cp = st.s.Copy() }) {
+			return false
+		}
+		st.comps = append(st.comps, &skState{c: c, name: fmt.Sprintf("%s.companion%d", st.name, len(st.comps)), s: cp, spec: st.spec, m: st.m, mdl: st.mdl.Clone()})
+	case opCompAdd:
+		k := st.comps[op.j]
+		c.Guard("AddWithCount", func() {
+			if op.w == 1 {
+				err = k.s.I().Add(op.v)
+			} else {
+				err = k.s.I().AddWithCount(op.v, op.w)
+			}
+		})
+		k.mdl.Add(op.v, op.w)
+	case opCompReweight:
+		k := st.comps[op.j]
+		c.Guard("Reweight", func() { err = k.s.I().Reweight(op.w) })
+		k.mdl.Scale(op.w)
+		if f, _ := math.Frexp(op.w); f != 0.5 {
+			k.mdl.Lossy++
+		}
+	case opCompClear:
+		k := st.comps[op.j]
+		c.Guard("Clear", func() { k.s.I().Clear() })
+		k.mdl.Clear()
+	case opMergeFromComp:
+		k := st.comps[op.j]
+		c.Guard("MergeWith", func() { err = st.s.MergeWith(k.s) })
+		st.mdl.Merge(k.mdl.Clone())
+		st.mdl.Lossy++
+	case opMergeIntoComp:
+		k := st.comps[op.j]
+		c.Guard("MergeWith", func() { err = k.s.MergeWith(st.s) })
+		k.mdl.Merge(st.mdl.Clone())
+		k.mdl.Lossy++
+	}
+	if c.Failed() {
+		return false
+	}
+	if err != nil {
+		c.Failf("op.error:"+opNames[op.kind], "valid operation %s returned %v", op, err)
+		return false
+	}
 	return true
 }
 
